@@ -944,3 +944,360 @@ pub fn info(rng: &mut Rng, be: bool, asz: u8) -> (Vec<u8>, Vec<u8>, Vec<u8>) {
     }
     (ab.v, info.v, types.v)
 }
+
+// ---------------------------------------------------------------------------------------
+// CFI: .eh_frame / .debug_frame / .eh_frame_hdr
+
+/// Virtual addresses used by generated CFI so that pc-relative / data-relative
+/// encodings are coherent with the `BaseAddresses` the driver sets.
+pub const EH_FRAME_ADDR: u64 = 0x20_0000;
+pub const EH_FRAME_HDR_ADDR: u64 = 0x1f_0000;
+pub const TEXT_ADDR: u64 = 0x10_0000;
+pub const GOT_ADDR: u64 = 0x30_0000;
+
+fn emit_encoded(a: &mut Asm, enc: u8, value: u64, field_vaddr: u64, func_base: u64, asz: u8) {
+    if enc == 0xff {
+        return;
+    }
+    let base = match enc & 0x70 {
+        0x10 => field_vaddr,
+        0x20 => TEXT_ADDR,
+        0x30 => EH_FRAME_HDR_ADDR, // data base: the driver sets eh_frame_hdr's data base to the hdr address, eh_frame's to GOT
+        0x40 => func_base,
+        _ => 0,
+    };
+    let v = value.wrapping_sub(base);
+    match enc & 0x0f {
+        0x00 => {
+            a.uint(v, asz as usize);
+        }
+        0x01 => {
+            a.uleb(v);
+        }
+        0x02 | 0x0a => {
+            a.u16(v as u16);
+        }
+        0x03 | 0x0b => {
+            a.u32(v as u32);
+        }
+        0x04 | 0x0c => {
+            a.u64(v);
+        }
+        0x09 => {
+            a.sleb(v as i64);
+        }
+        _ => {
+            a.u8(v as u8);
+        }
+    }
+}
+
+fn pick_enc(rng: &mut Rng) -> u8 {
+    if rng.chance(1, 12) {
+        return rng.next() as u8;
+    }
+    let fmt = *rng.pick(&[0x00u8, 0x01, 0x02, 0x03, 0x04, 0x09, 0x0a, 0x0b, 0x0b, 0x0b, 0x0c]);
+    let app = *rng.pick(&[0x00u8, 0x10, 0x10, 0x10, 0x20, 0x30, 0x40, 0x50]);
+    let ind = if rng.chance(1, 10) { 0x80 } else { 0 };
+    fmt | app | ind
+}
+
+fn cfa_program(rng: &mut Rng, a: &mut Asm, n: usize, asz: u8, in_cie: bool) {
+    let reg = |rng: &mut Rng| -> u64 {
+        match rng.below(10) {
+            0 => rng.interesting(),
+            1 => 34, // AArch64 RA_SIGN_STATE
+            2 => rng.below(300),
+            _ => rng.below(32),
+        }
+    };
+    let block = |rng: &mut Rng, a: &mut Asm| {
+        let x = small_expr(rng);
+        a.uleb(if rng.chance(1, 16) { rng.interesting() } else { x.len() as u64 });
+        a.bytes(&x);
+    };
+    for _ in 0..n {
+        match rng.below(34) {
+            0 | 1 | 2 => {
+                a.u8(0x40 | rng.below(64) as u8);
+            }
+            3 | 4 => {
+                a.u8(0x80 | rng.below(64) as u8).uleb(if rng.chance(1, 8) { rng.interesting() } else { rng.below(32) });
+            }
+            5 => {
+                a.u8(0xc0 | rng.below(64) as u8);
+            }
+            6 => {
+                a.u8(0);
+            }
+            7 => {
+                // set_loc: address-sized (or encoded per 'R' in FDEs, the generator keeps absptr here)
+                let v = if rng.chance(1, 4) { rng.interesting() } else { TEXT_ADDR + rng.below(0x1000) };
+                a.u8(1).uint(v, asz as usize);
+            }
+            8 => {
+                a.u8(2).u8(rng.next() as u8);
+            }
+            9 => {
+                a.u8(3).u16(rng.next() as u16);
+            }
+            10 => {
+                a.u8(4).u32(if rng.chance(1, 4) { 0xffff_ffff } else { rng.below(0x1000) as u32 });
+            }
+            11 => {
+                let r = reg(rng);
+                a.u8(5).uleb(r).uleb(rng.interesting());
+            }
+            12 => {
+                let r = reg(rng);
+                a.u8(6).uleb(r);
+            }
+            13 => {
+                let r = reg(rng);
+                a.u8(7).uleb(r);
+            }
+            14 => {
+                let r = reg(rng);
+                a.u8(8).uleb(r);
+            }
+            15 => {
+                let r = reg(rng);
+                let r2 = reg(rng);
+                a.u8(9).uleb(r).uleb(r2);
+            }
+            16 | 17 => {
+                a.u8(0x0a);
+            }
+            18 | 19 => {
+                a.u8(0x0b);
+            }
+            20 => {
+                let r = reg(rng);
+                a.u8(0x0c).uleb(r).uleb(rng.interesting());
+            }
+            21 => {
+                let r = reg(rng);
+                a.u8(0x0d).uleb(r);
+            }
+            22 => {
+                a.u8(0x0e).uleb(rng.interesting());
+            }
+            23 => {
+                a.u8(0x0f);
+                block(rng, a);
+            }
+            24 => {
+                let r = reg(rng);
+                a.u8(*rng.pick(&[0x10u8, 0x16])).uleb(r);
+                block(rng, a);
+            }
+            25 => {
+                let r = reg(rng);
+                a.u8(*rng.pick(&[0x11u8, 0x15])).uleb(r).sleb(rng.interesting() as i64);
+            }
+            26 => {
+                let r = reg(rng);
+                a.u8(0x12).uleb(r).sleb(rng.interesting() as i64);
+            }
+            27 => {
+                a.u8(0x13).sleb(rng.interesting() as i64);
+            }
+            28 => {
+                let r = reg(rng);
+                a.u8(0x14).uleb(r).uleb(rng.interesting());
+            }
+            29 => {
+                a.u8(0x1d).u64(rng.interesting());
+            }
+            30 => {
+                a.u8(0x2d);
+            }
+            31 => {
+                a.u8(0x2e).uleb(rng.interesting());
+            }
+            32 => {
+                let r = reg(rng);
+                a.u8(0x2f).uleb(r).uleb(rng.interesting());
+            }
+            _ => {
+                a.u8(if in_cie { 0x0c } else { rng.next() as u8 });
+                if in_cie {
+                    a.uleb(7).uleb(8);
+                }
+            }
+        }
+    }
+}
+
+pub struct CfiOut {
+    pub eh_frame: Vec<u8>,
+    pub debug_frame: Vec<u8>,
+    pub eh_frame_hdr: Vec<u8>,
+    /// (initial address, length) of generated FDEs, for address probes
+    pub fdes: Vec<(u64, u64)>,
+}
+
+pub fn cfi(rng: &mut Rng, be: bool, asz: u8) -> CfiOut {
+    let mut eh = Asm::new(be);
+    let mut df = Asm::new(be);
+    let mut fdes: Vec<(u64, u64)> = Vec::new();
+    let mut table: Vec<(u64, u64)> = Vec::new(); // (initial address, fde vaddr)
+    let w = asz as usize;
+    let amask = if asz >= 8 { u64::MAX } else { (1u64 << (8 * asz as u32)) - 1 };
+    // ---- .eh_frame
+    let ncie = 1 + rng.usize(2);
+    let mut next_pc = TEXT_ADDR & amask;
+    for _ in 0..ncie {
+        let d64 = rng.chance(1, 8);
+        let cie_off = eh.len();
+        let tok = eh.begin_len(d64);
+        eh.u32(0); // CIE id
+        let version = *rng.pick(&[1u8, 1, 1, 3, 4, 2]);
+        eh.u8(version);
+        let aug: &[u8] = *rng.pick(&[&b"zR"[..], b"zR", b"zPLR", b"zLR", b"", b"zRS", b"z", b"zP", b"R", b"eh", b"zRx"]);
+        eh.cstr(aug);
+        let caf = *rng.pick(&[1u64, 1, 2, 4, 0, 255, 256, 1 << 63]);
+        let caf = if rng.chance(1, 3) { caf } else { 1 };
+        eh.uleb(caf);
+        eh.sleb(*rng.pick(&[-8i64, -4, 1, 0, i64::MIN, 127]));
+        if version == 1 {
+            eh.u8(rng.below(32) as u8);
+        } else {
+            eh.uleb(if rng.chance(1, 12) { rng.interesting() } else { rng.below(32) });
+        }
+        let mut fde_enc = 0u8;
+        let mut lsda_enc: Option<u8> = None;
+        let has_z = aug.first() == Some(&b'z');
+        if has_z {
+            let mut data = Asm::new(be);
+            let data_vaddr_unknown = EH_FRAME_ADDR + eh.len() as u64 + 1;
+            for &ch in &aug[1..] {
+                match ch {
+                    b'R' => {
+                        fde_enc = pick_enc(rng);
+                        if rng.chance(2, 3) {
+                            fde_enc = *rng.pick(&[0x1bu8, 0x00, 0x03, 0x1b, 0x0b]);
+                        }
+                        data.u8(fde_enc);
+                    }
+                    b'L' => {
+                        let e = pick_enc(rng);
+                        lsda_enc = Some(e);
+                        data.u8(e);
+                    }
+                    b'P' => {
+                        let e = pick_enc(rng);
+                        data.u8(e);
+                        let fv = data_vaddr_unknown + data.len() as u64;
+                        emit_encoded(&mut data, e, GOT_ADDR + 8, fv, 0, asz);
+                    }
+                    _ => {}
+                }
+            }
+            eh.uleb((data.len() as u64).wrapping_add(lie(rng) as u64));
+            eh.bytes(&data.v);
+        }
+        let n = rng.usize(6);
+        cfa_program(rng, &mut eh, n, asz, true);
+        eh.align(if rng.chance(1, 8) { 1 } else { w.max(4) });
+        let d = lie(rng);
+        eh.end_len(tok, d);
+        // FDEs
+        for _ in 0..rng.usize(4) {
+            let d64f = d64;
+            let fde_off = eh.len();
+            let tok = eh.begin_len(d64f);
+            let ptr_field = eh.len();
+            let cie_ptr = (ptr_field - cie_off) as u64;
+            eh.u32(if rng.chance(1, 16) { rng.interesting() as u32 } else { cie_ptr as u32 });
+            let len = 1 + rng.below(0x100);
+            let start = if rng.chance(1, 8) { rng.interesting() & amask } else { next_pc };
+            next_pc = next_pc.wrapping_add(len + rng.below(16)) & amask;
+            let fv = EH_FRAME_ADDR + eh.len() as u64;
+            emit_encoded(&mut eh, fde_enc, start, fv, 0, asz);
+            // address range: same format, no base
+            emit_encoded(&mut eh, fde_enc & 0x0f, if rng.chance(1, 10) { rng.interesting() } else { len }, 0, 0, asz);
+            if has_z {
+                let mut data = Asm::new(be);
+                if let Some(e) = lsda_enc {
+                    let fv = EH_FRAME_ADDR + eh.len() as u64 + 1;
+                    emit_encoded(&mut data, e, GOT_ADDR + 0x100, fv, start, asz);
+                }
+                eh.uleb((data.len() as u64).wrapping_add(lie(rng) as u64));
+                eh.bytes(&data.v);
+            }
+            let n = rng.usize(10);
+            cfa_program(rng, &mut eh, n, asz, false);
+            eh.align(if rng.chance(1, 8) { 1 } else { w.max(4) });
+            let d = lie(rng);
+            eh.end_len(tok, d);
+            fdes.push((start, len));
+            table.push((start, EH_FRAME_ADDR + fde_off as u64));
+        }
+    }
+    if !rng.chance(1, 6) {
+        eh.u32(0); // terminator
+    }
+    // ---- .debug_frame
+    for _ in 0..1 + rng.usize(2) {
+        let d64 = rng.chance(1, 6);
+        let cie_off = df.len();
+        let tok = df.begin_len(d64);
+        df.word(if d64 { u64::MAX } else { 0xffff_ffff }, d64);
+        let version = *rng.pick(&[1u8, 3, 4, 4, 5]);
+        df.u8(version);
+        df.cstr(if rng.chance(1, 10) { b"zR" } else { b"" });
+        if version == 4 {
+            df.u8(if rng.chance(1, 12) { rng.next() as u8 } else { asz });
+            df.u8(if rng.chance(1, 16) { 4 } else { 0 });
+        }
+        df.uleb(*rng.pick(&[1u64, 1, 4, 0, 1 << 62]));
+        df.sleb(*rng.pick(&[-8i64, -4, 1, 0]));
+        if version == 1 {
+            df.u8(rng.below(32) as u8);
+        } else {
+            df.uleb(rng.below(32));
+        }
+        let n = rng.usize(6);
+        cfa_program(rng, &mut df, n, asz, true);
+        df.align(w.max(4));
+        let d = lie(rng);
+        df.end_len(tok, d);
+        if rng.chance(1, 10) {
+            df.u32(0); // zero-length entry (the NASM hack path)
+        }
+        for _ in 0..rng.usize(4) {
+            let tok = df.begin_len(d64);
+            df.word(if rng.chance(1, 16) { rng.interesting() } else { cie_off as u64 }, d64);
+            let len = 1 + rng.below(0x100);
+            let start = if rng.chance(1, 8) { rng.interesting() & amask } else { next_pc };
+            next_pc = next_pc.wrapping_add(len + rng.below(16)) & amask;
+            df.uint(start, w).uint(if rng.chance(1, 10) { rng.interesting() } else { len }, w);
+            let n = rng.usize(10);
+            cfa_program(rng, &mut df, n, asz, false);
+            df.align(w.max(4));
+            let d = lie(rng);
+            df.end_len(tok, d);
+            fdes.push((start, len));
+        }
+    }
+    // ---- .eh_frame_hdr
+    let mut h = Asm::new(be);
+    h.u8(if rng.chance(1, 16) { 2 } else { 1 });
+    let ptr_enc = if rng.chance(1, 6) { pick_enc(rng) } else { 0x1b };
+    let cnt_enc = if rng.chance(1, 6) { pick_enc(rng) } else { 0x03 };
+    let tab_enc = if rng.chance(1, 4) { pick_enc(rng) } else { *rng.pick(&[0x3bu8, 0x3b, 0x3c, 0x3a, 0x33, 0x34, 0x32]) };
+    h.u8(ptr_enc).u8(cnt_enc).u8(tab_enc);
+    let fv = EH_FRAME_HDR_ADDR + h.len() as u64;
+    emit_encoded(&mut h, ptr_enc, if rng.chance(1, 8) { rng.interesting() } else { EH_FRAME_ADDR }, fv, 0, asz);
+    table.sort();
+    let count = if rng.chance(1, 8) { rng.interesting() } else { (table.len() as u64).wrapping_add(lie(rng) as u64) };
+    emit_encoded(&mut h, cnt_enc, count, 0, 0, asz);
+    for (pc, fde) in &table {
+        let fv = EH_FRAME_HDR_ADDR + h.len() as u64;
+        emit_encoded(&mut h, tab_enc, *pc, fv, 0, asz);
+        let fv = EH_FRAME_HDR_ADDR + h.len() as u64;
+        emit_encoded(&mut h, tab_enc, if rng.chance(1, 12) { rng.interesting() } else { *fde }, fv, 0, asz);
+    }
+    CfiOut { eh_frame: eh.v, debug_frame: df.v, eh_frame_hdr: h.v, fdes }
+}
